@@ -41,6 +41,26 @@ def gen_case(rng, maxn=8):
     return lines
 
 
+def gen_boundary(rng):
+    """sizes on the boundaries of the encoding dispatcher (bits per vertex x (dim_max + 2) close to 64 or 128, with and without room for the
+    coefficient): many points, few short edges (a sparse graph under a small threshold), so that the complex stays small"""
+    n, dim = rng.choice([(rng.randrange(17, 33), 10), (rng.randrange(17, 33), 11), (16, 14), (rng.randrange(9, 17), 14), (rng.randrange(129, 141), 6), (rng.randrange(129, 141), 14),
+                         (rng.randrange(33, 65), 8), (rng.randrange(33, 65), 9), (rng.randrange(5, 9), 20)])
+    D = [[0] * n for _ in range(n)]
+    for i in range(n):
+        for j in range(i): D[i][j] = D[j][i] = 50 + rng.randrange(3)
+    short = set()
+    verts = rng.sample(range(n), min(n, rng.randrange(4, 8)))
+    for _ in range(rng.randrange(4, 12)):
+        a, b = rng.sample(verts, 2); short.add((min(a, b), max(a, b)))
+    for a, b in short: D[a][b] = D[b][a] = rng.randrange(1, 5)
+    lines = ['mat %d %s' % (n, ' '.join(str(D[i][j]) for i in range(n) for j in range(i)))]
+    for _ in range(rng.randrange(2, 5)):
+        p = rng.choice([2, 3, 3, 5, 7, 19, 23, 31])
+        lines.append('run %s %d %d %d auto' % (rng.choice(FORMS), rng.choice([dim, dim, dim - 1, dim + 1]), rng.choice([4, 4, 3, 2]), p))
+    return lines
+
+
 def oracle(case, impl):
     D = None; n = 0; k = 0
     for l in case:
@@ -82,6 +102,9 @@ def run(ctx):
         if not exes.get(name): continue
         cases = [gen_case(ctx.rng, 9 if thorough and i % 4 == 0 else 8) for i in range(n if name == 'hC11' else n // 3)]
         vlib.correspondence(ctx, stream, [exes[name]], drv, cases, nontrivial=nt, keep_prefix=1, oracle=oracle, valid=valid)
+    # the encoding dispatcher at its size boundaries (many points, sparse graph)
+    cases = [gen_boundary(ctx.rng) for _ in range(60 if thorough else 16)]
+    vlib.correspondence(ctx, 'dispatcher_boundaries', [exes['hC11']], drv, cases, nontrivial=nt, keep_prefix=1, oracle=oracle, valid=valid)
     ctx.extra['partial'] = PARTIAL
 
 
